@@ -156,7 +156,7 @@ mut("prev_payload_dropped", "      [] t = \"pr_end\" ->\n            [Push(st, <
 mut("pend_payload_dropped", "                 THEN Push([st EXCEPT !.requested = st.request[2], !.pend = st.request, !.request = NoT,\n                                      !.cancelled = FALSE, !.gres = FALSE],\n                           <<D(M_EXIT_GUARD, st.active), F0(\"pr_g1\")>>)",
     "                 THEN Push([st EXCEPT !.requested = st.request[2], !.pend = <<st.request[1], st.request[2], 0>>, !.request = NoT,\n                                      !.cancelled = FALSE, !.gres = FALSE],\n                           <<D(M_EXIT_GUARD, st.active), F0(\"pr_g1\")>>)", note="guards do not see the payload")
 mut("react_main_before_pre", "[] op = \"react\"  -> [s0 EXCEPT !.k = Cycle(M_PRE_REACT, M_REACT, M_POST_REACT, st.active)]", "[] op = \"react\"  -> [s0 EXCEPT !.k = Cycle(M_REACT, M_PRE_REACT, M_POST_REACT, st.active)]", cfgs=["MC_guards_q", "MC_log"], note="react before preReact")
-mut("log_everything_nonverbose", "LogDefined(s, m) == IF s = NONE /\\ ~HasHead THEN FALSE", "LogDefined(s, m) == IF s = NONE /\\ ~HasHead THEN FALSE ELSE IF TRUE THEN TRUE", cfgs=["MC_log"], note="non-verbose logging records classes that define nothing")
+mut("log_everything_nonverbose", "                    ELSE Defines(s, m) \\/ Injections(s) >= 1 \\/ m \\in {M_PRE_REACT, M_REACT, M_POST_REACT, M_QUERY}", "                    ELSE TRUE", cfgs=["MC_log"], note="non-verbose logging records classes that define nothing")
 mut("log_cancel_silent", "r |-> 0, lg |-> lg(<<\"c\", sid, 0>>)]", "r |-> 0, lg |-> <<>>]", cfgs=["MC_log", "MC_logv"], note="cancellation not logged")
 mut("log_status_names_caller", "r |-> 0, lg |-> lg(<<\"s\", tg, 1>>)]", "r |-> 0, lg |-> lg(<<\"s\", sid, 1>>)]", cfgs=["MC_log", "MC_logv", "MC_plan_q"], note="fail(id) logged with the caller instead of the target")
 mut("log_task_transition_silent", "!.pendlog = @ \\o (IF st.logger THEN sc.logs ELSE <<>>)]", "!.pendlog = @]", cfgs=["MC_log", "MC_logv"], note="a task's transition is not logged")
